@@ -185,3 +185,38 @@ def glued_rule_trigger(files):
                 if glued.startswith(p) and not s.startswith(p):
                     return True
     return False
+
+
+def left_recursive_subrule(files):
+    """Trigger predicate of KF-C19-subrule-left-recursion (and its C03 face): some `#subruledef` has an alternative
+    whose pattern starts with a parameter of a sub-rule type from which the same `#subruledef` is reached again through
+    leading parameters only (a cycle of any length, including `{x: me} ...` inside `#subruledef me`)."""
+    import re
+    edges = {}
+    for name, text in (files.items() if isinstance(files, dict) else files):
+        if isinstance(text, dict):
+            try:
+                text = bytes.fromhex(text.get("h", ""))
+            except ValueError:
+                continue
+        if isinstance(text, bytes):
+            text = text.decode("utf8", "replace")
+        if not isinstance(text, str):
+            continue
+        for m in re.finditer(r"#subruledef[ \t]+([A-Za-z_][A-Za-z0-9_]*)[^{]*\{(.*?)\n\}", text, re.S):
+            me = m.group(1)
+            for line in m.group(2).split("\n"):
+                lead = re.match(r"\s*\{\s*[A-Za-z_][A-Za-z0-9_]*\s*:\s*([A-Za-z_][A-Za-z0-9_]*)\s*\}", line)
+                if lead and "=>" in line:
+                    edges.setdefault(me, set()).add(lead.group(1))
+    for start in edges:
+        seen, todo = set(), [start]
+        while todo:
+            n = todo.pop()
+            for t in edges.get(n, ()):
+                if t == start:
+                    return True
+                if t not in seen:
+                    seen.add(t)
+                    todo.append(t)
+    return False
